@@ -2,10 +2,15 @@
 from __future__ import annotations
 import ast
 from .. import au, sym, order
+from ..core import AnalysisError
 from ..rules import common, rows, tables
-from .c01 import lazy_rules
+from ..rules import ha_sx as sx, ha_q as q, ha_rules as hr
+from .c01 import lazy_rules, _guard, _priv, _pub, _Missing
 
 VOL = "mesh.datatypes.volume"
+CONN = "VolumeMesh._Connectivity"
+BCONN = "VolumeMesh._BoundaryConnectivity"
+BUILD = sx.Policy(never={"_compute_connectivity", "_compute_face_ids", "_sort_edge_neighborhoods", "_sort_vertex_neighborhoods"})
 MD = "mesh.mesh_data"
 BORDER = "processing.border"
 
@@ -13,7 +18,9 @@ EXPLANATION = (
     "Static conformance of the volume connectivity: typestate of the lazily built caches for every public entry point of "
     "the three volume classes (R-LAZY), row-type agnosticism of volume.py (R-ROW), invariants and mutual agreement of the "
     "literal tetrahedron / hexahedron face tables, lock-step construction of inverse index maps and inverse adjacency "
-    "relations, border predicate and if/else partitions. Structural necessary conditions only.")
+    "relations, border predicate and if/else partitions. The rules read symbolic summaries of the functions (msa/rules/ha_sx.py) and report a "
+    "violation only for a recognised construct that contradicts the obligation; code whose shape is not understood is reported undecided. "
+    "Structural necessary conditions only.")
 
 RULES = {
     "C03-L1": "every dereference / return of a lazily built cache field is dominated by its initialisation on all paths from every public entry point",
@@ -24,12 +31,16 @@ RULES = {
     "C03-P1": "index maps to/from the boundary and inverse adjacency relations are filled in lock-step",
     "C03-O1": "a face is on the border iff it has fewer than two incident cells; boundary / interior lists are if/else partitions",
     "C03-M1": "border flags of vertices / edges are set from every vertex / every side of every border face",
+    "C03-L7": "clear() restores every attribute that __init__ sets and a query modifies",
     "C03-L5": "the cold path of a lazily cached accessor only builds the cache, it never answers by itself",
     "C03-W1": "rotation around an edge: the sort keys handed out by the two walks (and the key of the starting cell) are pairwise distinct",
     "C03-P2": "the index maps of the boundary range over exactly the border classification (boundary_faces / their vertices / boundary_edges)",
     "C03-E1": "incidence tables are filled from every incidence: edge->faces / edge->cells from every edge of every face, vertex->cells from every "
               "vertex of every cell, adjacent cell keyed by (cell, local face) with the cell on the other side",
     "C03-D2": "definitional accessors (other_face_side, cell_to_cell) return what their definition says",
+    "C03-F1": "faces completed from the cells are de-duplicated against a set that starts with the keys of the listed faces, receives every "
+              "appended face and never shrinks",
+    "C03-X1": "an index translated to the numbering of the boundary surface is never used to index a container of the volume mesh",
     "C03-D1": "boundary-connectivity queries translate their argument with m2b_<kind> and every result with b2m_<kind of the result>",
 }
 
@@ -37,458 +48,796 @@ RULES = {
 def run(ctx):
     repo = ctx.repo
     lazy_rules(ctx, [(VOL, "VolumeMesh._Connectivity"), (VOL, "VolumeMesh._BoundaryConnectivity"), (VOL, "VolumeMesh")],
-               "C03", min_entries=70, min_guards=30)
+               "C03", min_entries=25, min_guards=5)
     rows.selfcheck()
-    rows.check_module(ctx, "C03-R1", VOL, min_uses=20)
-    rows.check_module(ctx, "C03-R1", BORDER, min_uses=1)
-    t1_tables(ctx)
-    p1_maps(ctx)
-    o1_border(ctx)
-    m1_marks(ctx)
-    w1_edge_rotation(ctx)
-    p2_map_domains(ctx)
-    d1_boundary_translation(ctx)
-    e1_incidence_tables(ctx)
-    d2_definitional(ctx)
+    _guard(ctx, "C03", rows.check_module, "C03-R1", VOL, min_uses=5)
+    _guard(ctx, "C03", rows.check_module, "C03-R1", BORDER, min_uses=1)
+    _guard(ctx, "C03", t1_tables)
+    _guard(ctx, "C03", p1_maps)
+    _guard(ctx, "C03", o1_border)
+    _guard(ctx, "C03", m1_marks)
+    _guard(ctx, "C03", w1_edge_rotation)
+    _guard(ctx, "C03", p2_map_domains)
+    _guard(ctx, "C03", d1_boundary_translation)
+    _guard(ctx, "C03", e1_incidence_tables)
+    _guard(ctx, "C03", d2_definitional)
+    _guard(ctx, "C03", f1_face_completion)
+    _guard(ctx, "C03", x1_index_spaces)
+
+
+def _appends_to(*chain):
+    """predicate: the method appends to self.<chain..> (e.g. self.faces.append(..), self.cell_faces._elem.append(..))"""
+    def pred(f):
+        for c in au.calls(f):
+            if au.call_tail(c) == "append" and isinstance(c.func, ast.Attribute) and au.chain(c.func.value) == ["self"] + list(chain):
+                return True
+        return False
+    return pred
+
+
+_TABLE_ROLE = {"_generate_cell_faces": _appends_to("cell_faces", "_elem"), "_complete_faces_from_cells": _appends_to("faces")}
+
+
+def _tables_of(ctx, modname, cls, qual):
+    """literal face tables reachable from a function (helpers and module-level constant tables followed): (fn, {norm: faces})"""
+    fn = _priv(ctx, "C03-T1", modname, cls, qual, pred=_TABLE_ROLE[qual])
+    x = q.summarise(ctx.repo, modname, cls, fn, policy=sx.Policy(never={"_compute_connectivity", "_compute_face_ids", "_compute_cell_adj"}))
+    found = {}
+    terms = [t for _, t in hr.all_terms(x)] + ([x.ret] if x.ret is not None else [])
+    for t in terms:
+        for cell, faces in tables.tables_in_term(x.expand(t)):
+            found.setdefault(repr(faces), faces)
+    return fn, x, list(found.values())
+
+
+def _kind(faces):
+    if len(faces) == 4 and all(len(f) == 3 for f in faces):
+        return 4
+    if len(faces) == 6 and all(len(f) == 4 for f in faces):
+        return 8
+    return None
 
 
 def t1_tables(ctx):
     repo = ctx.repo
-    found = {4: [], 8: []}
-    for modname, q, oriented in [(MD, "RawMeshData._generate_cell_faces", True),
-                                 (MD, "RawMeshData._complete_faces_from_cells", True),
-                                 (VOL, "VolumeMesh._Connectivity._compute_adjacent_cell", False)]:
-        fn = repo.func(modname, q)
-        tabs = tables.cell_tables(fn)
-        if not tabs:
-            ctx.fail("C03-T1", ctx.site(modname, fn), f"no literal face table over the unpacked cell vertices in {fn.name}",
-                     "the faces of a cell are enumerated from a literal table; it is gone or no longer recognisable")
+    found = {4: [], 8: []}       # (modname, fn, faces, oriented)
+    for modname, cls, qual in [(MD, "RawMeshData", "_generate_cell_faces"), (MD, "RawMeshData", "_complete_faces_from_cells")]:
+        try:
+            fn, x, tabs = _tables_of(ctx, modname, cls, qual)
+        except _Missing:
             continue
-        for k, faces, node in tabs:
-            site = ctx.site(modname, fn, node)
-            if k == 4:
-                probs = tables.tet_problems(faces, oriented=oriented)
-                ctx.check(not probs, "C03-T1", site, f"tetrahedron face table {faces} in {fn.name} is ill-formed",
-                          "; ".join(probs), note=f"tet table {faces}")
-            else:
-                probs = tables.hex_problems(faces)
-                ctx.check(not probs, "C03-T1", site, f"hexahedron face table {faces} in {fn.name} is ill-formed",
-                          "; ".join(probs), note=f"hex table {faces}")
-            found[k].append((modname, fn, faces, oriented, node))
-    ctx.require_count("C03-T1 tetrahedron tables", len(found[4]), 3)
-    ctx.require_count("C03-T1 hexahedron tables", len(found[8]), 2)
+        site = ctx.site(modname, fn)
+        kinds = {4: [t for t in tabs if _kind(t) == 4], 8: [t for t in tabs if _kind(t) == 8]}
+        for k, name in ((4, "tetrahedron"), (8, "hexahedron")):
+            if len(kinds[k]) != 1:
+                ctx.undecided("C03-T1", site, f"{len(kinds[k])} literal {name} face table(s) over the vertices of a cell reachable from {fn.name}", "")
+                continue
+            faces = kinds[k][0]
+            probs = tables.tet_problems(faces, oriented=True) if k == 4 else tables.hex_problems(faces)
+            ctx.check(not probs, "C03-T1", site, f"{name} face table {faces} in {fn.name} is ill-formed", "; ".join(probs), note=f"{name} table {faces}")
+            found[k].append((modname, fn, faces, True))
+    # adjacent-cell look-up: local face i of a cell is the face whose cells are scanned for key (cell, i)
+    fn = _priv(ctx, "C03-E1", VOL, CONN, "_compute_adjacent_cell", field="_adjC2C")
+    x = q.summarise(repo, VOL, CONN, fn, policy=BUILD)
+    site = ctx.site(VOL, fn)
+    local = {}
+    for e in q.setitems(x, "_adjC2C"):
+        k = e.key
+        if isinstance(k, ast.Tuple) and len(k.elts) == 2 and isinstance(au.const(k.elts[1]), int) and e.frames:
+            dom = e.frames[-1].dom
+            if isinstance(dom, ast.Call) and q.field(dom.func) == "face_to_cells" and len(dom.args) == 1:
+                f = tables.face_of_term(dom.args[0])
+                if f is not None:
+                    local.setdefault(au.const(k.elts[1]), set()).add(f[1])
+    if sorted(local) != [0, 1, 2, 3] or any(len(v) != 1 for v in local.values()):
+        ctx.undecided("C03-T1", site, "the four local faces of a tetrahedron are not recognised in the adjacent-cell look-up", f"local faces read: {sorted(local)}")
+    else:
+        faces = [next(iter(local[i])) for i in range(4)]
+        probs = tables.tet_problems(faces, oriented=False)
+        ctx.check(not probs, "C03-T1", site, f"tetrahedron face table {faces} in {fn.name} is ill-formed", "; ".join(probs), note=f"tet table {faces}")
+        found[4].append((VOL, fn, faces, False))
+    # cell -> faces: the i-th face appended for a tetrahedron omits its i-th vertex
+    fn = _priv(ctx, "C03-P1", VOL, CONN, "_compute_cell_adj", field="_adjF2C")
+    x = q.summarise(repo, VOL, CONN, fn, policy=BUILD)
+    site = ctx.site(VOL, fn)
+    apps = []
+    for e, b in q.method_calls(x, ("append",)):
+        k = q.lookup_key(b, "_adjC2F")
+        if k is not None and len(e.args) == 1 and any(_is_len4(t, p) for t, p in e.conds):
+            apps.append(tables.face_of_term(x.expand(e.args[0])))
+    if len(apps) != 4 or None in apps:
+        ctx.undecided("C03-T1", site, "the faces appended to the cell -> faces table of a tetrahedron are not four faces written over its vertices",
+                      f"{len(apps)} append(s) under the 4-vertex test")
+    else:
+        faces = [f for _, f in apps]
+        probs = tables.tet_problems(faces, oriented=False)
+        ctx.check(not probs, "C03-T1", site, f"the i-th face of a tetrahedron in {fn.name} is not `all vertices but the i-th`: {faces}",
+                  "cell_to_face(c)[i] must be the face opposite to the i-th vertex; " + "; ".join(probs), note=f"cell faces {faces}")
+        found[4].append((VOL, fn, faces, False))
     for k in (4, 8):
+        if not found[k]:
+            continue
         ref = found[k][0]
         for other in found[k][1:]:
             oriented = ref[3] and other[3]
             same = tables.canon(ref[2], oriented) == tables.canon(other[2], oriented)
-            ctx.check(same, "C03-T1", ctx.site(other[0], other[1], other[4]),
+            ctx.check(same, "C03-T1", ctx.site(other[0], other[1]),
                       f"{'tetrahedron' if k == 4 else 'hexahedron'} face table of {other[1].name} differs from the one of {ref[1].name}",
                       f"{other[2]} vs {ref[2]}: the i-th face of a cell must be the same face everywhere "
-                      f"(cell_faces, completed faces and adjacent-cell lookup index the same table)")
-    # implicit tables  C[:i] + C[i+1:]  are covered by R-ROW; if rewritten as comprehension check 'j != i'
-    fn = repo.func(VOL, "VolumeMesh._Connectivity._compute_cell_adj")
-    site = ctx.site(VOL, fn)
-    # the i-th adjacent face must omit exactly vertex i: look for a construction over C that drops index i
-    ok = False
-    for st in au.stmts(fn.body):
-        if isinstance(st, ast.For) and isinstance(st.target, ast.Name) and isinstance(st.iter, ast.Call) \
-                and au.call_tail(st.iter) == "range" and au.const(st.iter.args[0]) == 4:
-            i = st.target.id
-            for n in au.walk(st):
-                if isinstance(n, ast.BinOp) and isinstance(n.op, ast.Add) and isinstance(n.left, ast.Subscript) \
-                        and isinstance(n.right, ast.Subscript) and isinstance(n.left.slice, ast.Slice) and isinstance(n.right.slice, ast.Slice):
-                    ok = ok or (au.src(n.left.slice.upper) == i and n.left.slice.lower is None
-                                and au.src(n.right.slice.lower) == f"{i} + 1" and n.right.slice.upper is None)
-                if isinstance(n, (ast.ListComp, ast.GeneratorExp, ast.SetComp)) and len(n.generators) == 1:
-                    g = n.generators[0]
-                    for t in g.ifs:
-                        if isinstance(t, ast.Compare) and len(t.ops) == 1 and isinstance(t.ops[0], ast.NotEq) \
-                                and {au.src(t.left), au.src(t.comparators[0])} >= {i}:
-                            ok = True
-    ctx.check(ok, "C03-T1", site, "the i-th face of a tetrahedron in _compute_cell_adj is not `all vertices but the i-th`",
-              "cell_to_face(c)[i] must be the face opposite to the i-th vertex")
+                      f"(cell_faces, completed faces and adjacent-cell lookup index the same table)", note="copies of the table agree")
+
+
+def n_bool(v):
+    return bool(v)
+
+
+def _is_len4(t, pol):
+    c = au.canon_test(t, pol)
+    return (c.startswith("4 == len(") or (c.startswith("len(") and c.endswith(" == 4")))
+
+
+def _map_of_field(kind):
+    def which(canon_base, base):
+        f = q.field(canon_base)
+        return "f" if f == "m2b_" + kind else ("b" if f == "b2m_" + kind else None)
+    return which
+
+
+def _map_of_objs(maps):
+    def which(canon_base, base):
+        if sx.is_special(base, "$obj"):
+            return "f" if base.id == maps[0] else ("b" if base.id == maps[1] else None)
+        return None
+    return which
+
+
+def _border_fn(ctx):
+    fn = ctx.repo.func(BORDER, "extract_boundary_of_volume")
+    x = q.summarise(ctx.repo, BORDER, None, fn)
+    maps = None
+    if x.ret is not None:
+        ls = [leaf for _, leaf in sx.leaves(x.ret)]
+        if ls and all(isinstance(l, ast.Tuple) and len(l.elts) >= 3 and sx.is_special(l.elts[1], "$obj") and sx.is_special(l.elts[2], "$obj") for l in ls) \
+                and len({(l.elts[1].id, l.elts[2].id) for l in ls}) == 1:
+            maps = (ls[0].elts[1].id, ls[0].elts[2].id)
+    return fn, x, maps
 
 
 def p1_maps(ctx):
     repo = ctx.repo
-    fn = repo.func(VOL, "VolumeMesh._BoundaryConnectivity.__init__")
-    common.inverse_map_pairs(ctx, "C03-P1", VOL, fn, [("m2b_edge", "b2m_edge")])
-    fn = repo.func(VOL, "VolumeMesh._BoundaryConnectivity._extract_surface_boundary")
-    common.inverse_map_pairs(ctx, "C03-P1", VOL, fn, [("m2b_vertex", "b2m_vertex"), ("m2b_face", "b2m_face")], min_pairs=2)
-    # the index used for the boundary vertex is the position at which it is appended
-    enum_vertex_alignment(ctx, VOL, fn, "m2b_vertex", _raw_var(fn))
-    fn = repo.func(BORDER, "extract_boundary_of_volume")
-    # the two maps are local dictionaries: they are identified by their role (second and third component of the returned triple)
-    rets = [st for st in fn.body if isinstance(st, ast.Return) and isinstance(st.value, ast.Tuple) and len(st.value.elts) == 3
-            and all(isinstance(e, ast.Name) for e in st.value.elts[1:])]
-    if not rets:
-        ctx.fail("C03-P1", ctx.site(BORDER, fn), "extract_boundary_of_volume no longer returns (surface, boundary -> mesh map, mesh -> boundary map)", "")
+    fn = repo.func(VOL, BCONN + ".__init__")
+    x = q.summarise(repo, VOL, BCONN, fn)
+    for kind in ("vertex", "face", "edge"):
+        n = hr.inverse_stores(ctx, "C03-P1", VOL, x, _map_of_field(kind), kind)
+        if n == 0:
+            ctx.undecided("C03-P1", ctx.site(VOL, fn), f"no store into the {kind} maps m2b_{kind} / b2m_{kind} found from {BCONN}.__init__", "")
+    vertex_alignment(ctx, VOL, fn, x, _map_of_field("vertex"))
+    fn, x, maps = _border_fn(ctx)
+    site = ctx.site(BORDER, fn)
+    if maps is None:
+        ctx.undecided("C03-P1", site, "extract_boundary_of_volume: the two index maps are not the 2nd and 3rd value returned", "")
+    else:
+        # the first returned map is the one read when the faces are re-indexed (mesh -> boundary)
+        n = hr.inverse_stores(ctx, "C03-P1", BORDER, x, _map_of_objs(maps), "vertex")
+        if n == 0:
+            ctx.undecided("C03-P1", site, "extract_boundary_of_volume: no store into the returned index maps", "")
+        vertex_alignment(ctx, BORDER, fn, x, _map_of_objs(maps))
+    fn = _priv(ctx, "C03-P1", VOL, CONN, "_compute_cell_adj", field="_adjF2C")
+    x = q.summarise(repo, VOL, CONN, fn, policy=BUILD)
+    hr.inverse_relations(ctx, "C03-P1", VOL, x, fn, "_adjC2F", "_adjF2C")
+
+
+def vertex_alignment(ctx, modname, fn, x, which):
+    """the boundary index given to a vertex is the position at which its coordinates are appended to the boundary vertices.
+    which(canonical base, base) -> 'f' (mesh -> boundary map) | 'b' (boundary -> mesh map) | None"""
+    site = ctx.site(modname, fn)
+    apps = [(e, b) for e, b in q.method_calls(x, ("append",)) if isinstance(b, ast.Attribute) and b.attr == "vertices" and sx.is_special(b.value, "$obj")
+            and isinstance(x.objs[b.value.id].init, ast.Call) and au.call_tail(x.objs[b.value.id].init) == "RawMeshData"]
+    if len(apps) != 1 or len(apps[0][0].args) != 1:
+        ctx.undecided("C03-P1", site, f"{fn.name}: appending of the boundary vertices not recognised", f"{len(apps)} append(s)")
         return
-    stores = {s[1] for s in common.subscript_stores(fn)}
-    a, b_ = (e.id for e in rets[-1].value.elts[1:])
-    # which of the two is keyed by the mesh vertex: the one read when the faces are re-indexed
-    common.inverse_map_pairs(ctx, "C03-P1", BORDER, fn, [(a, b_)])
-    m2b = next((x for x in (a, b_) if any(isinstance(n, ast.Subscript) and isinstance(n.value, ast.Name) and n.value.id == x
-                                          and isinstance(n.ctx, ast.Load) for n in au.walk(fn))), a)
-    enum_vertex_alignment(ctx, BORDER, fn, m2b, _raw_var(fn))
-    fn = repo.func(VOL, "VolumeMesh._Connectivity._compute_cell_adj")
-    common.relation_pairs(ctx, "C03-P1", VOL, fn, "_adjC2F", "_adjF2C", min_sites=2)
+    a = apps[0][0]
+    stores = [(e, which(x.canon(e.base), e.base)) for e in x.effects if e.kind == "setitem" and which(x.canon(e.base), e.base)]
+    stores = [(e, w) for e, w in stores if len(e.frames) == 1 and len(a.frames) == 1 and e.frames[0] is a.frames[0]]
+    if not stores or a.conds or any(e.conds for e, _ in stores) or a.frames[0].kind != "seq":
+        ctx.undecided("C03-P1", site, f"{fn.name}: the vertex append and the map store are not made unconditionally in one loop", "")
+        return
+    k = a.frames[0].var
+    arg = a.args[0]
+    if not (isinstance(arg, ast.Subscript) and isinstance(arg.value, ast.Attribute) and arg.value.attr == "vertices"):
+        ctx.undecided("C03-P1", site, f"{fn.name}: the appended boundary vertex is not read from the vertices of the volume", "")
+        return
+    for s_, w in stores:
+        vert, pos = (s_.key, s_.value) if w == "f" else (s_.value, s_.key)
+        try:
+            p = sym.to_poly(pos, opaque=False)
+        except sym.NotPoly:
+            p = None
+        if p is None or p.coeff(k) != sym.Poly.const(1) or not p.without(k).is_const():
+            ctx.undecided("C03-P1", site, f"{fn.name}: the boundary index stored for a vertex is not the loop position", "")
+            continue
+        ok = p.without(k).const_value() == 0 and q.same(arg.slice, vert)
+        ctx.check(ok, "C03-P1", ctx.site(modname, s_.fn, s_.node),
+                  f"{fn.name}: the boundary index of a vertex is not the position at which that vertex is appended" +
+                  ("" if q.same(arg.slice, vert) else " (the map relates the position to another vertex than the one appended)"),
+                  "one vertex is appended per iteration and the map sends it to the position it got: map and boundary vertex container stay aligned",
+                  note=f"{fn.name}: map[v] = position of v in the boundary")
 
 
-def _raw_var(fn):
-    """the local name bound to the RawMeshData() under construction"""
-    names = [t.id for st in au.stmts(fn.body) if isinstance(st, ast.Assign) and isinstance(st.value, ast.Call)
-             and au.call_tail(st.value) == "RawMeshData" and not st.value.args for t in st.targets if isinstance(t, ast.Name)]
-    return names[0] if len(names) == 1 else None
-
-
-def enum_vertex_alignment(ctx, modname, fn, mapname, meshvar):
-    """for i,v in enumerate(S): X.vertices.append(src.vertices[v]); map[v] = i  - the new index of v is the
-    position at which its coordinates are appended (one append per iteration, unconditional)."""
-    ok = False
-    for st in au.stmts(fn.body):
-        if isinstance(st, ast.For) and isinstance(st.iter, ast.Call) and au.call_tail(st.iter) == "enumerate" \
-                and isinstance(st.target, ast.Tuple) and len(st.target.elts) == 2:
-            i, v = (x.id if isinstance(x, ast.Name) else None for x in st.target.elts)
-            stores = [s for s in st.body if isinstance(s, ast.Assign) and isinstance(s.targets[0], ast.Subscript)
-                      and common._base_name(s.targets[0].value) == mapname]
-            if not stores:
-                continue
-            apps = [c for s in st.body for c in au.calls(s) if au.call_tail(c) == "append"
-                    and au.src(c.func.value) == f"{meshvar}.vertices"]
-            good_app = len(apps) == 1 and isinstance(apps[0].args[0], ast.Subscript) and au.src(apps[0].args[0].slice) == v \
-                and any(apps[0] in au.calls(s) for s in st.body if isinstance(s, ast.Expr))
-            good_store = len(stores) == 1 and au.src(stores[0].targets[0].slice) == v and au.src(stores[0].value) == i
-            ok = good_app and good_store
-    ctx.check(ok, "C03-P1", ctx.site(modname, fn),
-              f"{fn.name}: boundary vertex index is not the position at which the vertex is appended",
-              f"`for i,v in enumerate(..): {meshvar}.vertices.append(vertices[v]); {mapname}[v] = i` keeps the map and the "
-              f"boundary vertex container aligned")
+VRECV = {"self.connectivity": (VOL, CONN)}
 
 
 def o1_border(ctx):
     repo = ctx.repo
-    fn = repo.func(VOL, "VolumeMesh.is_face_on_border")
+    fn = _pub(ctx, VOL, "VolumeMesh", "is_face_on_border")
     site = ctx.site(VOL, fn)
-    b = sym.Bindings(fn)
-    rets = [st for st in au.stmts(fn.body) if isinstance(st, ast.Return)]
-    ok = len(rets) >= 1
-    for r in rets:
-        if r.value is None:
-            ok = False
-            continue
-        def s(node):
-            node = b.resolve(node, at=r) if isinstance(node, ast.Name) and b.reaching(node.id, r) is not None else node
-            return "n"
-        # every definition of the counted quantity must be len(face_to_cells(..))
-        for n in au.names(r.value):
-            defs = [v for st in au.stmts(fn.body) for nm, v in sym.split_assign(st) if nm == n]
-            for d in defs:
-                if not (isinstance(d, ast.Call) and au.call_tail(d) == "len" and d.args and isinstance(d.args[0], ast.Call)
-                        and au.call_tail(d.args[0]) == "face_to_cells"):
-                    ok = False
-        try:
-            w, k = order.compare(r.value, "n < 2", sym=lambda node: "n")
-        except order.Unsupported:
-            w = {"unsupported": au.src(r.value)}
-        if w is not None:
-            ok = False
-            ctx.fail("C03-O1", site, f"is_face_on_border returns `{au.src(r.value)}`, not `number of incident cells < 2`",
-                     f"differs for {w}")
-    if ok:
-        ctx.ok("C03-O1", site, "border iff fewer than two incident cells")
-    elif not ctx.findings or ctx.findings[-1].rule != "C03-O1":
-        ctx.fail("C03-O1", site, "is_face_on_border no longer counts the cells returned by face_to_cells", "")
-    fn = repo.func(VOL, "VolumeMesh._compute_interior_boundary_faces")
-    common.check_partition(ctx, "C03-O1", VOL, fn, "_boundary_faces", "_interior_faces", "is_face_on_border")
-    fn = repo.func(VOL, "VolumeMesh._compute_interior_boundary_vertices")
-    common.check_partition(ctx, "C03-O1", VOL, fn, "_boundary_vertices", "_interior_vertices", "_is_vertex_on_border")
-    fn = repo.func(VOL, "VolumeMesh._compute_interior_boundary_edges")
-    common.check_partition(ctx, "C03-O1", VOL, fn, "_boundary_edges", "_interior_edges", "_is_edge_on_border")
+    x = q.summarise(repo, VOL, "VolumeMesh", fn, policy=sx.Policy(also={"n_F2C"}), recv=VRECV)
+
+    def count(t):
+        return isinstance(t, ast.Call) and isinstance(t.func, ast.Name) and t.func.id == "len" and len(t.args) == 1 \
+            and isinstance(t.args[0], ast.Call) and isinstance(t.args[0].func, ast.Attribute) and t.args[0].func.attr == "face_to_cells"
+    class _NotCount(Exception):
+        pass
+
+    def val(t, n):
+        if count(t):
+            return n
+        if isinstance(au.const(t), (int, bool)):
+            return au.const(t)
+        if isinstance(t, ast.UnaryOp) and isinstance(t.op, ast.Not):
+            return not val(t.operand, n)
+        if isinstance(t, ast.BoolOp):
+            vs = [val(v, n) for v in t.values]
+            return all(vs) if isinstance(t.op, ast.And) else any(vs)
+        if isinstance(t, ast.Compare) and len(t.ops) == 1 and type(t.ops[0]) in sx._CMP:
+            return sx._CMP[type(t.ops[0])](val(t.left, n), val(t.comparators[0], n))
+        raise _NotCount()
+    verdict = None
+    if x.ret is not None:
+        verdict = True
+        for _, leaf in sx.leaves(sx.lift_ite(x.ret)):
+            try:
+                if not any(count(n_) for n_ in ast.walk(leaf)):
+                    raise _NotCount()
+                w = [n for n in range(0, 4) if bool(val(leaf, n)) != (n < 2)]
+            except _NotCount:
+                verdict = None
+                break
+            if w and verdict is True:
+                verdict = f"answers {n_bool(val(leaf, w[0]))} for a face with {w[0]} incident cell(s)"
+    if verdict is None:
+        ctx.undecided("C03-O1", site, "is_face_on_border is not recognised as a comparison of the number of cells of the face with a constant", "")
+    else:
+        ctx.check(verdict is True, "C03-O1", site, f"is_face_on_border {verdict}", "a face is on the border iff it has fewer than two incident cells",
+                  note="border iff fewer than two incident cells")
+
+    def face_pred(test, var, fr):
+        if isinstance(test, ast.Call) and q.field(test.func) == "is_face_on_border" and len(test.args) == 1 and isinstance(test.args[0], ast.Name) \
+                and test.args[0].id == var:
+            return True
+        return None
+    fn = _priv(ctx, "C03-O1", VOL, "VolumeMesh", "_compute_interior_boundary_faces", field="_boundary_faces")
+    hr.partition(ctx, "C03-O1", VOL, "VolumeMesh", fn, "_boundary_faces", "_interior_faces", ("faces",), face_pred, "faces", recv=VRECV)
+    fn = _priv(ctx, "C03-O1", VOL, "VolumeMesh", "_compute_interior_boundary_vertices", field="_boundary_vertices")
+    hr.partition(ctx, "C03-O1", VOL, "VolumeMesh", fn, "_boundary_vertices", "_interior_vertices", ("vertices",),
+                 hr.flag_pred("_is_vertex_on_border", "is_vertex_on_border"), "vertices", recv=VRECV)
+    fn = _priv(ctx, "C03-O1", VOL, "VolumeMesh", "_compute_interior_boundary_edges", field="_boundary_edges")
+    hr.partition(ctx, "C03-O1", VOL, "VolumeMesh", fn, "_boundary_edges", "_interior_edges", ("edges",),
+                 hr.flag_pred("_is_edge_on_border"), "edges", recv=VRECV)
+
+
+BF = ("boundary_faces", "_boundary_faces")
+
+
+def _border_face_row(e):
+    """(face loop frame, row term) when effect e sits in a loop over all border faces: row = self.faces[<border face>]"""
+    for fr in e.frames:
+        if fr.kind == "seq" and not fr.extra and q.field(fr.dom) in BF:
+            face = ast.Subscript(value=fr.dom, slice=sx.N(fr.var), ctx=ast.Load())
+            row = ast.Subscript(value=ast.Attribute(value=sx.N("self"), attr="faces", ctx=ast.Load()), slice=face, ctx=ast.Load())
+            return fr, row
+    return None, None
 
 
 def m1_marks(ctx):
     repo = ctx.repo
-    # vertices: for iF in boundary_faces: for v in faces[iF]: flag[v] = True
-    fn = repo.func(VOL, "VolumeMesh._compute_interior_boundary_vertices")
+    fn = _priv(ctx, "C03-O1", VOL, "VolumeMesh", "_compute_interior_boundary_vertices", field="_boundary_vertices")
     site = ctx.site(VOL, fn)
-    ok = False
-    for st in au.stmts(fn.body):
-        if isinstance(st, ast.For) and au.src(st.iter) in ("self.boundary_faces", "self._boundary_faces") and isinstance(st.target, ast.Name):
-            f = st.target.id
-            for s in st.body:
-                if isinstance(s, ast.For) and au.src(s.iter) == f"self.faces[{f}]" and isinstance(s.target, ast.Name):
-                    v = s.target.id
-                    ok = any(isinstance(x, ast.Assign) and au.src(x.targets[0]) == f"self._is_vertex_on_border[{v}]"
-                             and au.const(x.value) is True for x in s.body)
-    ctx.check(ok, "C03-M1", site, "border vertex flags are not set for every vertex of every border face",
-              "a vertex is on the border iff it belongs to a border face")
-    fn = repo.func(VOL, "VolumeMesh._compute_interior_boundary_edges")
+    x = q.summarise(repo, VOL, "VolumeMesh", fn, recv=VRECV)
+    flags = [e for e in q.setitems(x, "_is_vertex_on_border") if au.const(e.value) is True]
+    good = []
+    for e in flags:
+        fr, row = _border_face_row(e)
+        inner = [g for g in e.frames if g.kind == "seq" and row is not None and q.same(g.dom, row)]
+        if fr is not None and len(e.frames) == 2 and inner and not e.conds \
+                and q.same(e.key, ast.Subscript(value=row, slice=sx.N(inner[0].var), ctx=ast.Load())):
+            good.append(e)
+    if len(flags) != 1 or not good:
+        ctx.undecided("C03-M1", site, "the border flag of the vertices is not set in a plain loop over the vertices of every border face", f"{len(flags)} flag store(s)")
+    else:
+        ctx.ok("C03-M1", site, "vertex flag set for every vertex of every border face")
+    fn = _priv(ctx, "C03-O1", VOL, "VolumeMesh", "_compute_interior_boundary_edges", field="_boundary_edges")
     site = ctx.site(VOL, fn)
-    ok = False
-    b = sym.Bindings(fn)
-    for st in au.stmts(fn.body):
-        if isinstance(st, ast.For) and au.src(st.iter) in ("self.boundary_faces", "self._boundary_faces") and isinstance(st.target, ast.Name):
-            f = st.target.id
-            for s in au.stmts(st.body):
-                if isinstance(s, ast.For) and isinstance(s.iter, ast.Call) and au.call_tail(s.iter) == "range" \
-                        and len(s.iter.args) == 1 and isinstance(s.target, ast.Name):
-                    i = s.target.id
-                    n_ok = au.src(b.resolve(s.iter.args[0], at=s)) == f"len(self.faces[{f}])"
-                    for x in s.body:
-                        if isinstance(x, ast.Assign) and isinstance(x.targets[0], ast.Subscript) \
-                                and au.is_self_attr(x.targets[0].value, "_is_edge_on_border") and au.const(x.value) is True:
-                            key = b.resolve(x.targets[0].slice, at=x, keep=(i, f, au.src(s.iter.args[0])))
-                            if isinstance(key, ast.Call) and au.call_tail(key) == "edge_id" and len(key.args) == 2:
-                                offs = []
-                                for a in key.args:
-                                    if isinstance(a, ast.Subscript) and au.src(a.value) == f"self.faces[{f}]":
-                                        offs.append(sym.mod_offset(a.slice, i, au.src(s.iter.args[0])))
-                                    else:
-                                        offs.append(None)
-                                ok = n_ok and sorted(o for o in offs if o is not None) == [0, 1] and len(offs) == 2 and None not in offs
-    ctx.check(ok, "C03-M1", site, "border edge flags are not set for every side (i, i+1 mod n) of every border face",
-              "an edge is on the border iff it is a side of a border face")
+    x = q.summarise(repo, VOL, "VolumeMesh", fn, recv=VRECV)
+    flags = [e for e in q.setitems(x, "_is_edge_on_border") if au.const(e.value) is True]
+    if len(flags) != 1:
+        ctx.undecided("C03-M1", site, "the border flag of the edges is not set by one store", f"{len(flags)} flag store(s)")
+        return
+    e = flags[0]
+    esite = ctx.site(VOL, e.fn, e.node)
+    fr, row = _border_face_row(e)
+    if fr is None:
+        vertex_only = e.conds and all(("is_vertex_on_border" in au.src(t)) for t, _ in e.conds)
+        if vertex_only and any(hr.seq_over(g, "edges") for g in e.frames):
+            ctx.fail("C03-M1", esite, "an edge is flagged as border edge when its two end points are border vertices",
+                     "an edge is on the border iff it is a side of a border face: an interior edge can join two border vertices")
+        else:
+            ctx.undecided("C03-M1", esite, "the border flag of the edges is not set in a loop over the border faces", "")
+        return
+    inner = [g for g in e.frames if g is not fr]
+    k = e.key
+    face = ast.Subscript(value=fr.dom, slice=sx.N(fr.var), ctx=ast.Load())
+    if len(inner) == 1 and not e.conds and inner[0].kind == "seq" and isinstance(inner[0].dom, ast.Call) and isinstance(inner[0].dom.func, ast.Attribute) \
+            and inner[0].dom.func.attr == "face_to_edges" and len(inner[0].dom.args) == 1 and q.same(inner[0].dom.args[0], face) and q.same(k, _elem(inner[0])):
+        ctx.ok("C03-M1", esite, "edge flag set for every edge of face_to_edges(border face)")
+        return
+    if len(inner) != 1 or e.conds or not (isinstance(k, ast.Call) and isinstance(k.func, ast.Attribute) and k.func.attr == "edge_id" and len(k.args) == 2):
+        ctx.undecided("C03-M1", esite, "the border flag of the edges is not set through edge_id(..) of two vertices in a plain loop over each border face", "")
+        return
+    g = inner[0]
+    from .c01 import _sides_loop
+    verdict = _sides_loop([g], [], row)
+    offs = [q.row_offset(a, g.var, row) for a in k.args]
+    if verdict is None or None in offs:
+        ctx.undecided("C03-M1", esite, "the two vertices of a flagged edge are not read from the border face by index", "")
+    elif verdict is not True:
+        ctx.fail("C03-M1", esite, f"the loop over the sides of a border face {verdict}", "every side of every border face is a border edge")
+    else:
+        ctx.check(sorted(offs) == [0, 1], "C03-M1", esite,
+                  f"border edge flags are set for the pair of vertices {offs[0]:+d}, {offs[1]:+d} of each border face (relative to the k-th), which is not a side",
+                  "an edge is on the border iff it is a side (k, k+1 mod n) of a border face", note="edge flag set for every side of every border face")
 
 
 # ---------------------------------------------------------------------------- W1
+def _edge_sorters(ctx):
+    """the private methods of the volume connectivity that sort the tables around an edge"""
+    cls = ctx.repo.cls(VOL, CONN)
+    out = []
+    for st in cls.body:
+        if isinstance(st, ast.FunctionDef) and any(au.call_tail(c) == "sort" for c in au.calls(st)) \
+                and any(au.is_self_attr(n, "_adjE2C") or au.is_self_attr(n, "_adjE2F") for n in au.walk(st)):
+            out.append(st)
+    return out
+
+
 def w1_edge_rotation(ctx):
-    fn = ctx.repo.func(VOL, "VolumeMesh._Connectivity._sort_edge_neighborhoods")
-    site = ctx.site(VOL, fn)
-    walks = [st for st in au.stmts(fn.body) if isinstance(st, ast.While)]
-    if len(walks) != 2:
-        ctx.fail("C03-W1", site, f"{len(walks)} walk loop(s) around an edge instead of the two directions", "")
+    sorters = _edge_sorters(ctx)
+    cls_site = ctx.site(VOL, CONN)
+    if len(sorters) != 1:
+        ctx.undecided("C03-W1", cls_site, f"{len(sorters)} method(s) sorting the cells / faces around an edge found", "")
         return
-    info = {}   # key dict name -> list of (first key, step) per walk
-    pre = {}    # key dict name -> set of constant keys assigned outside the walks
-    for st in au.stmts(fn.body):
-        if isinstance(st, ast.Assign) and isinstance(st.targets[0], ast.Subscript) and isinstance(st.targets[0].value, ast.Name) \
-                and not any(a in walks for a in au.ancestors(st)) and isinstance(st.value, ast.Name):
-            d = st.targets[0].value.id
-            # value of the counter at this point: last constant assignment before in the same block
-            blk, _ = au.enclosing_block(st)
-            val = None
-            for s2 in blk[:[id(x) for x in blk].index(id(st))]:
-                if isinstance(s2, ast.Assign) and isinstance(s2.targets[0], ast.Name) and s2.targets[0].id == st.value.id:
-                    val = au.const(s2.value)
-            pre.setdefault(d, set()).add(val)
-    for w in walks:
-        blk, _ = au.enclosing_block(w)
-        before = blk[:[id(x) for x in blk].index(id(w))]
-        for i, st in enumerate(w.body):
-            if isinstance(st, ast.Assign) and isinstance(st.targets[0], ast.Subscript) and isinstance(st.targets[0].value, ast.Name) \
-                    and isinstance(st.value, ast.Name):
-                d, var = st.targets[0].value.id, st.value.id
-                init = None
-                for s2 in before:
-                    if isinstance(s2, ast.Assign) and isinstance(s2.targets[0], ast.Name) and s2.targets[0].id == var:
-                        init = au.const(s2.value)
-                steps = [(j, s2) for j, s2 in enumerate(w.body) if isinstance(s2, ast.AugAssign) and isinstance(s2.target, ast.Name)
-                         and s2.target.id == var and au.const(s2.value) == 1 and isinstance(s2.op, (ast.Add, ast.Sub))]
-                if init is None or len(steps) != 1:
-                    info.setdefault(d, []).append(None)
-                    continue
-                j, sst = steps[0]
-                step = 1 if isinstance(sst.op, ast.Add) else -1
-                first = init + step if j < i else init
-                info.setdefault(d, []).append((first, step))
-    n = 0
-    for d, ws in sorted(info.items()):
-        n += 1
-        if len(ws) != 2 or None in ws:
-            ctx.fail("C03-W1", site, f"sort keys `{d}` are not handed out by one counter stepped once per iteration in each of the two walks", "")
+    fn = sorters[0]
+    site = ctx.site(VOL, fn)
+    x = q.summarise(ctx.repo, VOL, CONN, fn, policy=sx.Policy(never={"_compute_connectivity", "_compute_face_ids", "_compute_cell_adj", "_compute_edge_id"}))
+    per = {}      # rank table -> [(frame, first key, step)]
+    odd = set()
+    for e in x.effects:
+        if e.kind != "setitem" or not sx.is_special(e.base, "$obj") or not e.frames:
             continue
-        (f1, s1), (f2, s2) = ws
-        extra = {x for x in pre.get(d, set()) if x is not None}
-        # key sets {f1 + t*s1}, {f2 + t*s2} (t >= 0) and the pre-assigned keys must be pairwise disjoint
-        in_seq = lambda x, f, st_: (x - f) * st_ >= 0
-        disjoint = s1 == -s2 and ((s1 > 0 and f1 > f2) or (s1 < 0 and f1 < f2)) \
-            and not any(in_seq(x, f1, s1) or in_seq(x, f2, s2) for x in extra)
+        fr = e.frames[-1]
+        hit = None
+        for name, d in fr.carried.items():
+            mu = f"$mu:{name}:{fr.var}"
+            if not q.uses_var(e.value, mu) or d["next"] is None:
+                continue
+            try:
+                pv, pn, pi = sym.to_poly(e.value, opaque=False), sym.to_poly(d["next"], opaque=False), sym.to_poly(d["init"], opaque=False)
+            except sym.NotPoly:
+                odd.add(e.base.id)
+                continue
+            if pv.coeff(mu) == sym.Poly.const(1) and pv.without(mu).is_const() and pn.coeff(mu) == sym.Poly.const(1) and pn.without(mu).is_const() \
+                    and pi.is_const() and abs(pn.without(mu).const_value()) == 1:
+                hit = (fr, int(pi.const_value() + pv.without(mu).const_value()), int(pn.without(mu).const_value()))
+            else:
+                odd.add(e.base.id)
+        if hit:
+            per.setdefault(e.base.id, []).append(hit)
+    presets = {}
+    for oid in per:
+        vals = set()
+        init = x.objs[oid].init
+        if isinstance(init, ast.Dict):
+            for v in init.values:
+                vals.add(au.const(v, "?"))
+        elif not q._empty_container(init):
+            vals.add("?")
+        for e in x.effects:
+            if e.kind == "setitem" and sx.is_special(e.base, "$obj") and e.base.id == oid and not any(e.frames and e.frames[-1] is h[0] for h in per[oid]):
+                vals.add(au.const(e.value, "?"))
+        presets[oid] = vals
+    n = 0
+    for oid, ws in sorted(per.items()):
+        if oid in odd or len(ws) != 2 or ws[0][0] is ws[1][0] or "?" in presets[oid]:
+            ctx.undecided("C03-W1", site, "the sort keys of a table around an edge are not handed out by one counter stepped once per iteration in each of two walks", "")
+            continue
+        n += 1
+        (_, f1, s1), (_, f2, s2) = ws
+        extra = presets[oid]
+        in_seq = lambda v, f, st_: (v - f) * st_ >= 0
+        disjoint = s1 == -s2 and ((s1 > 0 and f1 > f2) or (s1 < 0 and f1 < f2)) and not any(in_seq(v, f1, s1) or in_seq(v, f2, s2) for v in extra)
         ctx.check(disjoint, "C03-W1", site,
-                  f"the two walks around an edge hand out overlapping sort keys in `{d}` (first keys {f1} and {f2}, steps {s1:+d} and {s2:+d}, "
-                  f"preset {sorted(extra)})",
+                  f"the two walks around an edge hand out overlapping sort keys (first keys {f1} and {f2}, steps {s1:+d} and {s2:+d}, preset {sorted(extra)})",
                   "two elements with the same key stay in index order: the rotational order around the edge is lost",
-                  note=f"{d}: keys {f1},{f1+s1},.. and {f2},{f2+s2},.. disjoint")
-    ctx.check(n >= 2, "C03-W1", site, "cell and face sort keys of the rotation around an edge not found", "")
-    sorts = [c for c in au.calls(fn) if au.call_tail(c) == "sort"]
-    fields = {c.func.value.value.attr for c in sorts if isinstance(c.func.value, ast.Subscript) and au.is_self_attr(c.func.value.value)}
-    ctx.check(fields == {"_adjE2C", "_adjE2F"}, "C03-W1", site, f"tables sorted around an edge: {sorted(fields)} (expected _adjE2C and _adjE2F)", "")
+                  note=f"keys {f1},{f1 + s1},.. and {f2},{f2 + s2},.. disjoint")
+    if len(per) < 2:
+        if True:
+            ctx.undecided("C03-W1", site, "cell and face sort keys of the rotation around an edge not both recognised", f"{len(per)} rank table(s)")
+    fields = set()
+    for e, b in q.method_calls(x, ("sort",)):
+        for f in ("_adjE2C", "_adjE2F"):
+            if q.lookup_key(b, f) is not None:
+                fields.add(f)
+    if fields != {"_adjE2C", "_adjE2F"}:
+        ctx.undecided("C03-W1", site, "the tables sorted around an edge are not both self._adjE2C[e] and self._adjE2F[e]", f"{sorted(fields)}")
+    else:
+        ctx.ok("C03-W1", site, "cells and faces around an edge both sorted")
 
 
 # ---------------------------------------------------------------------------- P2
+def _all_border_faces(x, dom):
+    """the iterated sequence is the list of all border faces: <mesh>.boundary_faces itself or a local list holding exactly its elements"""
+    if isinstance(dom, ast.Attribute) and dom.attr in BF:
+        return True
+    v = q.comp_view(x, dom)
+    if v is not None:
+        frames, conds, elt = v
+        return len(frames) == 1 and frames[0].kind == "seq" and isinstance(frames[0].dom, ast.Attribute) and frames[0].dom.attr in BF and not conds \
+            and q.same(elt, ast.Subscript(value=frames[0].dom, slice=sx.N(frames[0].var), ctx=ast.Load()))
+    return False
+
+
 def p2_map_domains(ctx):
     repo = ctx.repo
-    fn = repo.func(VOL, "VolumeMesh._BoundaryConnectivity.__init__")
-    ok = False
-    for st in au.stmts(fn.body):
-        if isinstance(st, ast.For) and any(isinstance(s, ast.Assign) and isinstance(s.targets[0], ast.Subscript)
-                                           and au.is_self_attr(s.targets[0].value, "m2b_edge") for s in au.stmts(st.body)):
-            it = st.iter
-            ok = au.src(it) in ("self.complete_mesh.boundary_edges",) and isinstance(st.target, ast.Name) \
-                and not any(isinstance(s, ast.Continue) for s in au.stmts(st.body))
-    ctx.check(ok, "C03-P2", ctx.site(VOL, fn), "the edge maps of the boundary are not built from complete_mesh.boundary_edges",
-              "the maps must cover exactly the border edges: an interior edge joining two border vertices is not an edge of the "
-              "boundary surface (edge_id gives None for it and the maps stop being inverse bijections)", note="edge maps over boundary_edges")
-    for modname, q, mesh in ((VOL, "VolumeMesh._BoundaryConnectivity._extract_surface_boundary", "self.complete_mesh"),
-                             (BORDER, "extract_boundary_of_volume", "mesh")):
-        fn = repo.func(modname, q)
-        site = ctx.site(modname, fn)
-        loops = [st for st in au.stmts(fn.body) if isinstance(st, ast.For)]
-        face_loop = [st for st in loops if au.src(st.iter) in (f"{mesh}.boundary_faces", f"enumerate({mesh}.boundary_faces)")]
-        okf = False
-        vset = None
-        for lp in face_loop:
-            tgt = lp.target.elts[-1].id if isinstance(lp.target, ast.Tuple) else lp.target.id
-            for s in lp.body:
-                if isinstance(s, ast.For) and au.src(s.iter) == f"{mesh}.faces[{tgt}]" and isinstance(s.target, ast.Name):
-                    for c in au.calls(s):
-                        if au.call_tail(c) == "add" and isinstance(c.func.value, ast.Name) and au.src(c.args[0]) == s.target.id \
-                                and not au.guards(c, stop=lp):
-                            okf, vset = True, c.func.value.id
-        ctx.check(okf, "C03-P2", site, f"{fn.name}: boundary vertices are not collected from every vertex of every border face", "")
-        okv = any(isinstance(st.iter, ast.Call) and au.call_tail(st.iter) == "enumerate" and st.iter.args
-                  and au.src(st.iter.args[0]) == vset for st in loops) if vset else False
-        ctx.check(okv, "C03-P2", site, f"{fn.name}: the vertex maps do not range over the collected border vertices", "")
+    fn = repo.func(VOL, BCONN + ".__init__")
+    x = q.summarise(repo, VOL, BCONN, fn)
+    site = ctx.site(VOL, fn)
+    st = [e for e in x.effects if e.kind == "setitem" and q.field(x.canon(e.base)) == "m2b_edge"]
+    if len(st) != 1 or len(st[0].frames) != 1 or st[0].frames[0].kind != "seq" or not isinstance(st[0].frames[0].dom, ast.Attribute):
+        ctx.undecided("C03-P2", site, "the store into the edge map m2b_edge is not made in one plain loop", f"{len(st)} store(s)")
+    else:
+        e = st[0]
+        fr = e.frames[0]
+        elem = ast.Subscript(value=fr.dom, slice=sx.N(fr.var), ctx=ast.Load())
+        if fr.dom.attr in ("boundary_edges", "_boundary_edges") and q.same(e.key, elem) and not e.conds:
+            ctx.ok("C03-P2", site, "edge maps over boundary_edges")
+        elif fr.dom.attr == "edges" and not e.conds and isinstance(e.key, ast.Name) and e.key.id == fr.var:
+            ctx.fail("C03-P2", ctx.site(VOL, e.fn, e.node), "the edge maps of the boundary are built from every edge of the volume",
+                     "the maps must cover exactly the border edges: an interior edge is not an edge of the boundary surface")
+        elif fr.dom.attr == "edges" and e.conds and all("m2b_vertex" in au.src(t) for t, _ in e.conds):
+            ctx.fail("C03-P2", ctx.site(VOL, e.fn, e.node), "the edge maps of the boundary are built from every edge whose two end points have an image on the boundary",
+                     "the maps must cover exactly the border edges: an interior edge joining two border vertices is not an edge of the "
+                     "boundary surface (edge_id gives None for it and the maps stop being inverse bijections)")
+        else:
+            ctx.undecided("C03-P2", site, "the edge maps of the boundary are not built in a plain loop over the border edges of the volume", "")
+    fnb, xb, maps = _border_fn(ctx)
+    for modname, f_, x_, which in ((VOL, fn, x, _map_of_field("vertex")), (BORDER, fnb, xb, _map_of_objs(maps) if maps else None)):
+        site = ctx.site(modname, f_)
+        if which is None:
+            ctx.undecided("C03-P2", site, f"{f_.name}: vertex maps not identified", "")
+            continue
+        stores = [e for e in x_.effects if e.kind == "setitem" and which(x_.canon(e.base), e.base) and len(e.frames) == 1
+                  and sx.is_special(e.frames[0].dom, "$obj") and not which(x_.canon(e.frames[0].dom), e.frames[0].dom)]
+        if not stores or len({e.frames[0].dom.id for e in stores}) != 1 or any(e.conds for e in stores):
+            ctx.undecided("C03-P2", site, f"{f_.name}: the vertex map is not filled in a plain loop over a local collection of vertices", "")
+            continue
+        vset = stores[0].frames[0].dom.id
+        cv = q.Contents(x_, None, obj=vset)
+        ok = None
+        if not cv.unknown and cv.ins:
+            ok = True
+            for fr_, cs_, el_, e_ in cv.ins:
+                good = False
+                if len(fr_) == 2 and not cs_ and fr_[0].kind == "seq" and _all_border_faces(x_, fr_[0].dom) and fr_[1].kind == "seq":
+                    face = ast.Subscript(value=fr_[0].dom, slice=sx.N(fr_[0].var), ctx=ast.Load())
+                    dom = fr_[1].dom
+                    if isinstance(dom, ast.Subscript) and isinstance(dom.value, ast.Attribute) and dom.value.attr == "faces" and q.same(dom.slice, face) \
+                            and q.same(el_, ast.Subscript(value=dom, slice=sx.N(fr_[1].var), ctx=ast.Load())):
+                        good = True
+                if not good:
+                    ok = None
+        if ok is None:
+            ctx.undecided("C03-P2", site, f"{f_.name}: the collection of border vertices is not recognised as `every vertex of every border face`", "")
+        else:
+            ctx.ok("C03-P2", site, f"{f_.name}: vertex maps range over the vertices of the border faces")
 
 
 # ---------------------------------------------------------------------------- D1
 def d1_boundary_translation(ctx):
     repo = ctx.repo
-    kinds = {  # method -> (kind of first argument, kind of result elements, extra args kinds)
+    kinds = {  # method -> (kind of the argument, kind of the elements of the result)
         "vertex_to_vertices": ("vertex", "vertex"), "vertex_to_edges": ("vertex", "edge"), "vertex_to_faces": ("vertex", "face"),
         "face_to_edges": ("face", "edge"), "face_to_faces": ("face", "face"),
     }
-    cls = repo.cls(VOL, "VolumeMesh._BoundaryConnectivity")
-    n = 0
-    for fn in [st for st in cls.body if isinstance(st, ast.FunctionDef) and st.name in kinds]:
-        akind, rkind = kinds[fn.name]
+    for name, (akind, rkind) in kinds.items():
+        fn = _pub(ctx, VOL, BCONN, name)
         site = ctx.site(VOL, fn)
-        ps = au.params(fn, skip_self=True)
-        n += 1
-        arg_ok = False
-        bname = None
-        for st in fn.body:
-            if isinstance(st, ast.Assign) and isinstance(st.targets[0], ast.Name) and isinstance(st.value, ast.Call) \
-                    and au.call_tail(st.value) == "get" and au.src(st.value.func.value) == f"self.m2b_{akind}" \
-                    and au.src(st.value.args[0]) == ps[0]:
-                arg_ok, bname = True, st.targets[0].id
-        ctx.check(arg_ok, "C03-D1", site, f"{fn.name}: the {akind} argument is not translated with self.m2b_{akind}",
-                  "queries are asked with indices of the volume mesh and answered with indices of the volume mesh")
-        rets = [st for st in fn.body if isinstance(st, ast.Return) and isinstance(st.value, ast.ListComp)]
-        res_ok = False
-        if rets:
-            v = rets[-1].value
-            x = v.generators[0].target.id if isinstance(v.generators[0].target, ast.Name) else None
-            res_ok = isinstance(v.elt, ast.Subscript) and au.src(v.elt.value) == f"self.b2m_{rkind}" and au.src(v.elt.slice) == x
-            # the inner query is made with the translated argument
-            inner = au.src(v.generators[0].iter)
-            b = sym.Bindings(fn)
-            inner_r = au.src(b.resolve(v.generators[0].iter, at=rets[-1], keep=(bname,)))
-            res_ok = res_ok and bname is not None and (f"({bname}" in inner_r) and ps[0] not in au.names(b.resolve(v.generators[0].iter, at=rets[-1], keep=(bname,)))
-        ctx.check(res_ok, "C03-D1", site, f"{fn.name}: results are not translated back with self.b2m_{rkind} (or the query is not made with the boundary index)",
-                  "mixing the two directions of the index maps answers with indices of the wrong mesh", note=f"{fn.name}: m2b_{akind} in, b2m_{rkind} out")
-    ctx.require_count("C03-D1 translated queries", n, 5)
+        P = au.params(fn, skip_self=True)[0]
+        x = q.summarise(repo, VOL, BCONN, fn, policy=sx.Policy(never={"_compute_connectivity", "_compute_edge_id", "_compute_face_ids"}))
+        if x.ret is None:
+            ctx.undecided("C03-D1", site, f"{name}: value returned from inside a loop", "")
+            continue
+        lists = []
+        for conds, leaf in sx.leaves(x.ret):
+            v = q.comp_view(x, leaf)
+            if v is not None and v[0]:
+                lists.append(v)
+            elif not ((isinstance(leaf, (ast.List, ast.Tuple)) and not leaf.elts) or (isinstance(leaf, ast.Constant) and leaf.value is None)):
+                lists = None
+                break
+        if not lists or len(lists) != 1:
+            ctx.undecided("C03-D1", site, f"{name}: the translated answer is not one list built element by element", "")
+            continue
+        frames, conds, elt = lists[0]
+
+        def translated(t):
+            """the term is self.m2b_<akind>[P] / .get(P, ..)"""
+            k = q.lookup_key(t, "m2b_" + akind)
+            return k is not None and isinstance(k, ast.Name) and k.id == P
+        # every query of the boundary surface is asked with translated indices only
+        raw = []
+        unknown = False
+        for fr in frames:
+            for n in ast.walk(fr.dom):
+                if isinstance(n, ast.Call) and isinstance(n.func, ast.Attribute) and (au.src(n.func.value) in ("super()", "self")):
+                    for a in n.args:
+                        if isinstance(a, ast.Name) and a.id == P:
+                            raw.append(n.func.attr)
+                        elif not (translated(a) or any(isinstance(m, ast.Name) and m.id.startswith("$k") for m in ast.walk(a))):
+                            unknown = True
+        back = isinstance(elt, ast.Subscript) and q.field(elt.value)
+        if raw:
+            ctx.fail("C03-D1", site, f"{name}: the boundary surface is queried ({raw[0]}) with the index of the volume mesh instead of its image by m2b_{akind}",
+                     "queries are asked with indices of the volume mesh and answered with indices of the volume mesh")
+        elif unknown or not back or not (back.startswith("b2m_") or back.startswith("m2b_")):
+            ctx.undecided("C03-D1", site, f"{name}: translation of the argument / of the results not recognised", "")
+        else:
+            ctx.check(back == "b2m_" + rkind, "C03-D1", site, f"{name}: results are translated with self.{back} instead of self.b2m_{rkind}",
+                      "mixing the two directions (or the kinds) of the index maps answers with indices of the wrong mesh", note=f"{name}: m2b_{akind} in, b2m_{rkind} out")
 
 
 # ---------------------------------------------------------------------------- E1
+def _elem(fr):
+    return ast.Subscript(value=fr.dom, slice=sx.N(fr.var), ctx=ast.Load())
+
+
+def _call_on(t, name, arg=None):
+    """t is self.<name>(arg)"""
+    return isinstance(t, ast.Call) and q.field(t.func) == name and len(t.args) == 1 and (arg is None or q.same(t.args[0], arg))
+
+
 def e1_incidence_tables(ctx):
     repo = ctx.repo
-    fn = repo.func(VOL, "VolumeMesh._Connectivity._compute_edge_id")
+    fn = _priv(ctx, "C03-E1", VOL, CONN, "_compute_edge_id", field="_adjE2F")
     site = ctx.site(VOL, fn)
-    b = sym.Bindings(fn)
-    okF = okC = False
-    for st in au.stmts(fn.body):
-        if isinstance(st, ast.For) and au.src(st.iter) in ("self.mesh.id_faces", "range(len(self.mesh.faces))") and isinstance(st.target, ast.Name):
-            f = st.target.id
-            for s2 in st.body:
-                if isinstance(s2, ast.For) and au.src(s2.iter) == f"self.face_to_edges({f})" and isinstance(s2.target, ast.Name):
-                    e = s2.target.id
-                    for s3 in s2.body:
-                        if isinstance(s3, ast.Expr) and isinstance(s3.value, ast.Call) and au.call_tail(s3.value) in ("append", "add") \
-                                and au.src(s3.value.func.value) == f"self._adjE2F[{e}]" and au.src(s3.value.args[0]) == f:
-                            okF = True
-                        if isinstance(s3, ast.AugAssign) and isinstance(s3.op, ast.BitOr) and au.src(s3.target) == f"self._adjE2C[{e}]":
-                            v = b.resolve(s3.value, at=s3, keep=(f,))
-                            okC = au.src(v) in (f"set(self.face_to_cells({f}))",)
-    ctx.check(okF, "C03-E1", site, "edge -> faces is not filled with every face for each of its edges", "", note="_adjE2F from face_to_edges of every face")
-    ctx.check(okC, "C03-E1", site, "edge -> cells is not the union of the cells of every face containing the edge", "", note="_adjE2C union of face_to_cells")
-    fn = repo.func(VOL, "VolumeMesh._Connectivity._compute_connectivity")
-    ok = False
-    for st in au.stmts(fn.body):
-        if isinstance(st, ast.For) and isinstance(st.iter, ast.Call) and au.call_tail(st.iter) == "enumerate" \
-                and au.src(st.iter.args[0]) == "self.mesh.cells" and isinstance(st.target, ast.Tuple):
-            iC, C = (x.id for x in st.target.elts)
-            for s2 in st.body:
-                if isinstance(s2, ast.For) and au.src(s2.iter) == C and isinstance(s2.target, ast.Name):
-                    V = s2.target.id
-                    ok = any(isinstance(s3, ast.Expr) and isinstance(s3.value, ast.Call) and au.call_tail(s3.value) in ("add", "append")
-                             and au.src(s3.value.func.value) == f"self._adjV2C[{V}]" and au.src(s3.value.args[0]) == iC for s3 in s2.body)
-    ctx.check(ok, "C03-E1", ctx.site(VOL, fn), "vertex -> cells is not filled with every cell for each of its vertices", "", note="_adjV2C from every vertex of every cell")
-    fn = repo.func(VOL, "VolumeMesh._Connectivity._compute_adjacent_cell")
+    x = q.summarise(repo, VOL, CONN, fn, policy=BUILD)
+    # ---- edge -> faces: every face is recorded at each of its edges
+    ins = hr.relation_insertions(x, "_adjE2F")
+    ok = None
+    if len(ins) == 1:
+        e, k, v, fr, cs = ins[0]
+        if len(fr) == 2 and not cs and hr.seq_over(fr[0], "faces") and fr[1].kind == "seq" and _call_on(fr[1].dom, "face_to_edges", sx.N(fr[0].var)):
+            ok = q.same(k, _elem(fr[1])) and q.same(v, sx.N(fr[0].var))
+    if ok is None:
+        ctx.undecided("C03-E1", site, "edge -> faces is not recognised as `each face is appended at every edge of face_to_edges(face)`", f"{len(ins)} insertion(s)")
+    else:
+        ctx.check(ok, "C03-E1", site, "edge -> faces does not record the face itself at each of its edges", "", note="_adjE2F from face_to_edges of every face")
+    # ---- edge -> cells: union of the cells of every face around the edge
+    contrib = []
+    for e in x.effects:
+        if e.kind == "aug" and isinstance(e.op, ast.BitOr):
+            k = q.lookup_key(x.canon(e.base), "_adjE2C") if e.key is None else (e.key if q.field(x.canon(e.base)) == "_adjE2C" else None)
+            if k is None and sx.is_special(e.base, "$obj"):
+                st = [s_ for s_ in x.effects if s_.kind == "setitem" and q.field(x.canon(s_.base)) == "_adjE2C"
+                      and sx.is_special(q._strip_conv(s_.value), "$obj") and q._strip_conv(s_.value).id == e.base.id]
+                if len(st) == 1:
+                    k = st[0].key
+            if k is not None:
+                contrib.append((e, k))
+        if e.kind == "call" and e.method == "update" and len(e.args or []) == 1:
+            k = q.lookup_key(x.canon(e.base), "_adjE2C")
+            if k is not None:
+                contrib.append((e, k))
+    ok = None
+    if len(contrib) == 1:
+        e, k = contrib[0]
+        val = e.value if e.kind == "aug" else e.args[0]
+        val = q._strip_conv(x.expand(val))
+        fr = e.frames
+        if len(fr) == 2 and not e.conds and isinstance(val, ast.Call) and q.field(val.func) == "face_to_cells" and len(val.args) == 1:
+            f = val.args[0]
+            if hr.seq_over(fr[0], "faces") and _call_on(fr[1].dom, "face_to_edges", sx.N(fr[0].var)):
+                ok = q.same(k, _elem(fr[1])) and q.same(f, sx.N(fr[0].var))
+            elif hr.seq_over(fr[0], "edges") and q.lookup_key(fr[1].dom, "_adjE2F") is not None and q.same(q.lookup_key(fr[1].dom, "_adjE2F"), sx.N(fr[0].var)):
+                ok = q.same(k, sx.N(fr[0].var)) and q.same(f, _elem(fr[1]))
+    over = [s_ for s_ in q.setitems(x, "_adjE2C") if len(s_.frames) == 2 and hr.seq_over(s_.frames[0], "faces")
+            and isinstance(q._strip_conv(x.expand(s_.value)), ast.Call) and q.field(q._strip_conv(x.expand(s_.value)).func) == "face_to_cells"]
+    if ok is None and not contrib and over:
+        ctx.fail("C03-E1", ctx.site(VOL, over[0].fn, over[0].node), "edge -> cells is overwritten with the cells of one face in the loop over the faces instead of accumulated",
+                 "the cells around an edge are the union of the cells of every face containing the edge")
+    elif ok is None:
+        ctx.undecided("C03-E1", site, "edge -> cells is not recognised as the union of face_to_cells(f) over the faces f around the edge", f"{len(contrib)} contribution(s)")
+    else:
+        ctx.check(ok, "C03-E1", site, "edge -> cells is not the union of the cells of every face containing the edge", "", note="_adjE2C union of face_to_cells")
+    # ---- vertex -> cells
+    fn = _priv(ctx, "C03-E1", VOL, CONN, "_compute_connectivity", field="_adjV2C")
     site = ctx.site(VOL, fn)
-    ok = False
-    for st in au.stmts(fn.body):
-        if isinstance(st, ast.Assign) and isinstance(st.targets[0], ast.Subscript) and au.is_self_attr(st.targets[0].value, "_adjC2C"):
-            loops = [a for a in au.ancestors(st) if isinstance(a, ast.For)]
-            if len(loops) < 3:
-                continue
-            inner, mid, outer = loops[0], loops[1], loops[2]
-            iC = outer.target.elts[0].id if isinstance(outer.target, ast.Tuple) else None
-            iF, F = (x.id for x in mid.target.elts) if isinstance(mid.target, ast.Tuple) else (None, None)
-            c2 = inner.target.id if isinstance(inner.target, ast.Name) else None
-            gs = au.guards(st, stop=inner)
-            ok = au.src(st.targets[0].slice) == f"({iC}, {iF})" and au.src(st.value) == c2 and au.src(inner.iter) == f"self.face_to_cells({F})" \
-                and len(gs) == 1 and gs[0][1] and isinstance(gs[0][0], ast.Compare) and isinstance(gs[0][0].ops[0], ast.NotEq) \
-                and {au.src(gs[0][0].left), au.src(gs[0][0].comparators[0])} == {c2, iC} \
-                and isinstance(mid.iter, ast.Call) and au.call_tail(mid.iter) == "enumerate"
-    ctx.check(ok, "C03-E1", site, "adjacent cell is not `adj[(cell, local face)] = the other cell of that face`",
-              "cell-to-cell adjacency must list, per local face, the cell across it", note="_adjC2C[(iC, iF)] = other cell of face iF")
+    x = q.summarise(repo, VOL, CONN, fn, policy=sx.Policy(never={"_sort_vertex_neighborhoods"}))
+    ins = hr.relation_insertions(x, "_adjV2C")
+    ok = None
+    if len(ins) == 1:
+        e, k, v, fr, cs = ins[0]
+        if len(fr) == 2 and not cs and hr.seq_over(fr[0], "cells") and fr[1].kind == "seq" and q.same(fr[1].dom, _elem(fr[0])):
+            ok = q.same(k, _elem(fr[1])) and q.same(v, sx.N(fr[0].var))
+    if ok is None:
+        ctx.undecided("C03-E1", site, "vertex -> cells is not recognised as `each cell is recorded at every vertex of the cell`", f"{len(ins)} insertion(s)")
+    else:
+        ctx.check(ok, "C03-E1", site, "vertex -> cells does not record the cell itself at each of its vertices", "", note="_adjV2C from every vertex of every cell")
+    # ---- adjacent cell: adj[(cell, local face)] = the other cell of that face
+    fn = _priv(ctx, "C03-E1", VOL, CONN, "_compute_adjacent_cell", field="_adjC2C")
+    site = ctx.site(VOL, fn)
+    x = q.summarise(repo, VOL, CONN, fn, policy=BUILD)
+    st = q.setitems(x, "_adjC2C")
+    verdict = None
+    seen_local = set()
+    for e in st:
+        k = e.key
+        if not (isinstance(k, ast.Tuple) and len(k.elts) == 2 and len(e.frames) == 2 and hr.seq_over(e.frames[0], "cells")):
+            verdict = None
+            break
+        cell = sx.N(e.frames[0].var)
+        dom = e.frames[1].dom
+        if isinstance(dom, ast.Call) and q.field(dom.func) == "face_to_cells" and q.same(k.elts[0], _elem(e.frames[1])) and q.same(e.value, cell):
+            verdict = "stores the cell under the key of its neighbour (the local face number is the one of the cell, not of the neighbour)"
+            break
+        if not (q.same(k.elts[0], cell) and isinstance(au.const(k.elts[1]), int) and isinstance(dom, ast.Call) and q.field(dom.func) == "face_to_cells"
+                and q.same(e.value, _elem(e.frames[1]))):
+            verdict = None
+            break
+        seen_local.add(au.const(k.elts[1]))
+        others = [(t, p) for t, p in e.conds if "has_attribute" not in au.src(t)]
+        good = len(others) == 1 and isinstance(au.strip_not(*others[0])[0], ast.Compare) and \
+            {au.norm(au.strip_not(*others[0])[0].left), au.norm(au.strip_not(*others[0])[0].comparators[0])} == {au.norm(e.value), au.norm(cell)}
+        if not good:
+            verdict = None
+            break
+        t, p = au.strip_not(*others[0])
+        differs = isinstance(t.ops[0], ast.NotEq) == p if isinstance(t.ops[0], (ast.Eq, ast.NotEq)) else None
+        if differs is None:
+            verdict = None
+            break
+        if not differs:
+            verdict = "records the cell itself as its neighbour across a face"
+            break
+        verdict = True
+    if verdict is None or (verdict is True and seen_local != {0, 1, 2, 3}):
+        ctx.undecided("C03-E1", site, "adjacent cell is not recognised as `adj[(cell, local face)] = the other cell of that face` for the four local faces", "")
+    else:
+        ctx.check(verdict is True, "C03-E1", site, f"the adjacent-cell table {verdict}",
+                  "cell-to-cell adjacency must list, per local face, the cell across it", note="_adjC2C[(cell, i)] = other cell of local face i")
 
 
 # ---------------------------------------------------------------------------- D2
 def d2_definitional(ctx):
     repo = ctx.repo
-    fn = repo.func(VOL, "VolumeMesh._Connectivity.other_face_side")
+    NB = sx.Policy(never={"_compute_connectivity", "_compute_face_ids", "_compute_cell_adj", "_compute_edge_id", "_compute_adjacent_cell"})
+    fn = _pub(ctx, VOL, CONN, "other_face_side")
     site = ctx.site(VOL, fn)
-    C, F = au.params(fn, skip_self=True)[:2]
-    names = None
-    gate = False
-    rest = []
-    for st in fn.body:
-        if isinstance(st, ast.Assign) and isinstance(st.targets[0], ast.Tuple) and len(st.targets[0].elts) == 2 \
-                and au.src(st.value) == f"self.face_to_cells({F})":
-            names = [x.id for x in st.targets[0].elts]
-        elif isinstance(st, ast.If) and au.src(st.test).replace(" ", "") == f"len(self.face_to_cells({F}))!=2" and isinstance(st.body[0], ast.Return) \
-                and (st.body[0].value is None or au.src(st.body[0].value) == "None"):
-            gate = True
-        elif not (isinstance(st, ast.Expr) and isinstance(st.value, ast.Constant)):
-            rest.append(st)
-    ok = False
-    if names and gate:
-        try:
-            f = order.return_formula(rest)
-            pred = order.Pred(lambda node: {C: "C", names[0]: "A", names[1]: "B"}.get(au.src(node)) or (_ for _ in ()).throw(order.Unsupported(au.src(node))))
-            ok = True
-            for env in order.envs({"C", "A", "B"}, set()):
-                if env["A"] == env["B"]:
-                    continue
-                got = order.eval_formula(f, pred, env, leaf=lambda e, en: None if e is None or au.src(e) == "None" else {names[0]: "A", names[1]: "B"}.get(au.src(e), "?"))
-                want = "B" if env["C"] == env["A"] else ("A" if env["C"] == env["B"] else None)
-                ok = ok and got == want
-        except order.Unsupported:
-            ok = False
-    ctx.check(ok, "C03-D2", site, "other_face_side(C, F) is not `the other cell of an interior face F of C, else None`", "", note="other_face_side")
-    fn = repo.func(VOL, "VolumeMesh._Connectivity.cell_to_cell")
+    C_, F_ = au.params(fn, skip_self=True)[:2]
+    x = q.summarise(repo, VOL, CONN, fn, policy=NB)
+
+    def end_of(t):
+        if isinstance(t, ast.Subscript) and au.const(t.slice) in (0, 1) and _call_on(t.value, "face_to_cells", sx.N(F_)):
+            return au.const(t.slice)
+        return None
+
+    def gate(t):
+        """number of cells of the face is (not) two"""
+        if isinstance(t, ast.Compare) and len(t.ops) == 1 and isinstance(t.ops[0], (ast.Eq, ast.NotEq)):
+            l, r = t.left, t.comparators[0]
+            for a, b in ((l, r), (r, l)):
+                if isinstance(a, ast.Call) and isinstance(a.func, ast.Name) and a.func.id == "len" and len(a.args) == 1 \
+                        and _call_on(a.args[0], "face_to_cells", sx.N(F_)) and au.const(b) == 2:
+                    return ("two", isinstance(t.ops[0], ast.Eq))
+        return None
+    hr.two_ended(ctx, "C03-D2", site, x, "other_face_side(C, F)", C_, end_of, "the other cell of an interior face F of C, else None", gate=gate)
+    fn = _pub(ctx, VOL, CONN, "cell_to_cell")
     site = ctx.site(VOL, fn)
     iC = au.params(fn, skip_self=True)[0]
-    rets = [st for st in fn.body if isinstance(st, ast.Return)]
-    ok = False
-    if rets and isinstance(rets[-1].value, ast.ListComp):
-        v = rets[-1].value
-        g = v.generators[0]
-        i = g.target.id if isinstance(g.target, ast.Name) else None
-        elt = f"self._adjC2C[{iC}, {i}]"
-        ok = au.src(v.elt) == elt and au.src(g.iter) == f"range(len(self.mesh.cells[{iC}]))" and len(g.ifs) == 1 \
-            and au.src(g.ifs[0]).replace(" ", "") in (f"{elt}!=config.NOT_AN_ID".replace(" ", ""),)
-    ctx.check(ok, "C03-D2", site, "cell_to_cell is not `adjacent cell across each local face, missing neighbours dropped`", "", note="cell_to_cell")
+    x = q.summarise(repo, VOL, CONN, fn, policy=NB)
+    v = q.comp_view(x, x.ret) if x.ret is not None else None
+    verdict = None
+    if v is not None:
+        frames, conds, elt = v
+        row = ast.Subscript(value=ast.Attribute(value=ast.Attribute(value=sx.N("self"), attr="mesh", ctx=ast.Load()), attr="cells", ctx=ast.Load()),
+                            slice=sx.N(iC), ctx=ast.Load())
+        if len(frames) == 1 and frames[0].kind == "seq" and q.same(frames[0].dom, row):
+            k = q.lookup_key(elt, "_adjC2C")
+            if k is not None and isinstance(k, ast.Tuple) and len(k.elts) == 2 and q.same(k.elts[0], sx.N(iC)) and q.same(k.elts[1], sx.N(frames[0].var)):
+                if not conds:
+                    verdict = "keeps the entries that hold no neighbour (NOT_AN_ID)"
+                elif len(conds) == 1:
+                    t, p = au.strip_not(*conds[0])
+                    if isinstance(t, ast.Compare) and len(t.ops) == 1 and isinstance(t.ops[0], (ast.Eq, ast.NotEq)) \
+                            and {au.norm(t.left), au.norm(t.comparators[0])} == {au.norm(elt), au.norm(ast.Attribute(value=sx.N("config"), attr="NOT_AN_ID", ctx=ast.Load()))}:
+                        verdict = True if (isinstance(t.ops[0], ast.NotEq) == p) else "keeps only the entries that hold no neighbour"
+    if verdict is None:
+        ctx.undecided("C03-D2", site, "cell_to_cell is not recognised as `adjacent cell across each local face, missing neighbours dropped`", "")
+    else:
+        ctx.check(verdict is True, "C03-D2", site, f"cell_to_cell {verdict}", "cell_to_cell lists the adjacent cell across each local face, missing neighbours dropped",
+                  note="cell_to_cell")
+
+
+# ---------------------------------------------------------------------------- F1
+def f1_face_completion(ctx):
+    fn = _priv(ctx, "C03-F1", MD, "RawMeshData", "_complete_faces_from_cells", pred=_appends_to("faces"))
+    site = ctx.site(MD, fn)
+    x = q.summarise(ctx.repo, MD, "RawMeshData", fn)
+    apps = [e for e, b in q.method_calls(x, ("append",)) if q.field(b) == "faces" and len(e.args) == 1]
+    if len(apps) != 1:
+        ctx.undecided("C03-F1", site, "appending of the faces generated from the cells not recognised", f"{len(apps)} append(s) to self.faces")
+        return
+    e = apps[0]
+    guard = None
+    for t, p in e.conds:
+        t, p = au.strip_not(t, p)
+        if isinstance(t, ast.Compare) and len(t.ops) == 1 and isinstance(t.ops[0], (ast.In, ast.NotIn)) and sx.is_special(t.comparators[0], "$obj"):
+            if (isinstance(t.ops[0], ast.NotIn)) == p:
+                guard = (t.left, t.comparators[0].id)
+    if guard is None:
+        ctx.undecided("C03-F1", site, "the append of a generated face is not guarded by `key not in <set of known faces>`", "")
+        return
+    key, sid = guard
+    shrink = [m for m in x.effects if m.kind == "call" and sx.is_special(m.base, "$obj") and m.base.id == sid
+              and m.method in ("remove", "discard", "pop", "clear", "difference_update", "intersection_update")]
+    adds = [m for m in x.effects if m.kind == "call" and sx.is_special(m.base, "$obj") and m.base.id == sid and m.method == "add" and len(m.args) == 1
+            and q.same(m.args[0], key) and hr._ctx_key(m) == hr._ctx_key(e)]
+    if shrink:
+        ctx.fail("C03-F1", ctx.site(MD, shrink[0].fn, shrink[0].node), f"the set of known face keys is shrunk ({shrink[0].method}) while the faces of the cells are generated",
+                 "a face listed in the input or generated by an earlier cell must stay known: once forgotten it is appended a second time by the next cell "
+                 "that has it, and the duplicate has no incident cell")
+        return
+    init = q._strip_conv(x.objs[sid].init)
+    init_ok = isinstance(init, (ast.SetComp, ast.ListComp, ast.GeneratorExp)) and hasattr(init, "_frames") and len(init._frames) == 1 \
+        and hr.seq_over(init._frames[0], "faces") and not init._conds
+    if not adds or not init_ok:
+        ctx.undecided("C03-F1", site, "the set of known face keys is not `keys of the listed faces, plus every face appended`", "")
+    else:
+        ctx.ok("C03-F1", site, "known-face set starts from the listed faces, grows with every appended face, never shrinks")
+
+
+# ---------------------------------------------------------------------------- X1
+def x1_index_spaces(ctx):
+    CONT = ("vertices", "edges", "faces", "cells")
+    fn = ctx.repo.func(VOL, BCONN + ".__init__")
+    x = q.summarise(ctx.repo, VOL, BCONN, fn)
+    fnb, xb, maps = _border_fn(ctx)
+
+    def scan(x_, fn_, modname, is_volume, is_m2b):
+        bad = None
+        for e, t in hr.all_terms(x_):
+            for n in ast.walk(t):
+                if isinstance(n, ast.Subscript) and isinstance(n.value, ast.Attribute) and n.value.attr in CONT and is_volume(n.value.value):
+                    for m in ast.walk(n.slice):
+                        base = m.value if isinstance(m, ast.Subscript) else (m.func.value if isinstance(m, ast.Call) and isinstance(m.func, ast.Attribute)
+                                                                          and m.func.attr == "get" else None)
+                        if base is not None and is_m2b(base):
+                            bad = (e, n.value.attr)
+        site = ctx.site(modname, fn_)
+        ctx.check(bad is None, "C03-X1", site if bad is None else ctx.site(modname, bad[0].fn, bad[0].node),
+                  f"{fn_.name}: an index already translated to the boundary numbering is used to index the {bad[1] if bad else ''} of the volume mesh",
+                  "the two meshes number their elements differently: the look-up reads an unrelated element of the volume as soon as the map is not the identity",
+                  note=f"{fn_.name}: boundary indices never index the volume")
+    scan(x, fn, VOL, lambda t: q.field(t) == "complete_mesh", lambda b: (q.field(b) or "").startswith("m2b_"))
+    if maps is not None:
+        vol = au.params(fnb)[0]
+        scan(xb, fnb, BORDER, lambda t: isinstance(t, ast.Name) and t.id == vol, lambda b: sx.is_special(b, "$obj") and b.id == maps[0])
